@@ -1,3 +1,207 @@
 package main
 
-func runThorough(id string, c *Checker, p *Prog, l *Ledger, repo string) {}
+// Thorough tier.  Still static analysis only — nothing of the analysed program is executed.  Three extensions of
+// the quick tier:
+//
+//  T1  the same rules are re-decided on the program as the compiler sees it under other build configurations
+//      (GOOS/GOARCH pairs and the `verif` build tag), so a file that is only compiled elsewhere (a _windows.go
+//      variant of the REPL reader, a 32-bit int overflow in an index computation) is analysed too; the
+//      obligations of every configuration are merged into one ledger (worst status wins per rule+construct).
+//  T2  the abstract machine runs with wider limits (inlining depth, state budget); rules whose quick scope is
+//      "reachable from main" are widened to every module function where the rule file says so (C07, C13).
+//  T3  sensitivity self-test: every change recorded under /verif/seeded/<id>-*/patch.diff that breaks this
+//      property is applied to a scratch copy of the tree being analysed (outside /repo and /verif, removed
+//      afterwards) and the quick check is run on the copy in a fresh process; it must report a violation.  The
+//      result is written to the evidence file.  A silent rule fails the thorough check only when the analysed
+//      tree is the commit the changes were recorded against (seeded/BASE) — on any other tree a recorded patch
+//      may apply and yet no longer break the property, so there the result is advisory.
+
+import (
+	"encoding/json"
+	"fmt"
+	"os"
+	"os/exec"
+	"path/filepath"
+	"sort"
+	"strings"
+	"sync"
+)
+
+var thoroughMode bool
+
+var altConfigs = [][]string{
+	{"GOOS=windows", "GOARCH=386"},
+	{"GOOS=darwin", "GOARCH=arm64"},
+	{"GOOS=linux", "GOARCH=amd64", "GOFLAGS=-mod=mod -tags=verif"},
+}
+
+func runThorough(id string, c *Checker, p *Prog, l *Ledger, repo string) {
+	// T1
+	var cfgNames []string
+	for _, cfg := range altConfigs {
+		name := strings.Join(cfg, " ")
+		p2, err := Load(repo, cfg...)
+		if err != nil {
+			l.Undecide("thorough/config", name, "", "the tree does not load under this build configuration: "+err.Error())
+			continue
+		}
+		l2 := NewLedger(id, l.Tier, l.Seed, l.VerifDir)
+		func() {
+			defer func() {
+				if r := recover(); r != nil {
+					l.Undecide("infrastructure", "checker-panic["+name+"]", "", fmt.Sprintf("checker panicked: %v", r))
+				}
+			}()
+			c.Run(p2, l2)
+		}()
+		bad := 0
+		for _, o := range l2.Obls {
+			if o.Status != Discharged {
+				bad++
+				o.Why = "[" + name + "] " + o.Why
+			}
+			l.add(o)
+		}
+		for f := range l2.Funcs {
+			l.Funcs[f] = true
+		}
+		l.Paths += l2.Paths
+		l.States += l2.States
+		cfgNames = append(cfgNames, fmt.Sprintf("%s: %d packages, %d module functions, %d obligations, %d not discharged", name, len(p2.Pkgs), len(p2.ModuleFuncs()), len(l2.Obls), bad))
+	}
+	l.Extra["build_configurations"] = append([]string{fmt.Sprintf("default: %d packages, %d module functions", len(p.Pkgs), len(p.ModuleFuncs()))}, cfgNames...)
+	// T3
+	selfTest(id, l, repo)
+}
+
+type seedResult struct {
+	Seed    string `json:"seed"`
+	Outcome string `json:"outcome"` // fired | silent | skipped
+	Detail  string `json:"detail,omitempty"`
+}
+
+func selfTest(id string, l *Ledger, repo string) {
+	seedRoot := filepath.Join(l.VerifDir, "seeded")
+	if _, err := os.Stat(seedRoot); err != nil {
+		// scratch runs and copies of /verif without the seeds: nothing to test
+		if alt := "/verif/seeded"; l.VerifDir != "/verif" {
+			if _, err2 := os.Stat(alt); err2 == nil {
+				seedRoot = alt
+			} else {
+				l.Extra["self_test"] = "no seeded changes available"
+				return
+			}
+		} else {
+			l.Extra["self_test"] = "no seeded changes available"
+			return
+		}
+	}
+	dirs, _ := filepath.Glob(filepath.Join(seedRoot, "*", "meta.json"))
+	sort.Strings(dirs)
+	var mine []string
+	for _, m := range dirs {
+		b, err := os.ReadFile(m)
+		if err != nil {
+			continue
+		}
+		var meta struct {
+			Breaks string `json:"breaks_property"`
+		}
+		if json.Unmarshal(b, &meta) == nil && meta.Breaks == id {
+			mine = append(mine, filepath.Dir(m))
+		}
+	}
+	base, _ := os.ReadFile(filepath.Join(seedRoot, "BASE"))
+	head, _ := exec.Command("git", "-C", repo, "rev-parse", "HEAD").Output()
+	strict := strings.TrimSpace(string(base)) != "" && strings.TrimSpace(string(base)) == strings.TrimSpace(string(head)) && gitStatus(repo) == ""
+	self, err := os.Executable()
+	if err != nil {
+		l.Extra["self_test"] = "cannot locate own binary: " + err.Error()
+		return
+	}
+	results := make([]seedResult, len(mine))
+	var wg sync.WaitGroup
+	sem := make(chan bool, 4)
+	for i, d := range mine {
+		wg.Add(1)
+		go func(i int, d string) {
+			defer wg.Done()
+			sem <- true
+			defer func() { <-sem }()
+			results[i] = runSeed(self, id, d, repo, l.VerifDir)
+		}(i, d)
+	}
+	wg.Wait()
+	fired, silent, skipped := 0, 0, 0
+	for _, r := range results {
+		switch r.Outcome {
+		case "fired":
+			fired++
+		case "silent":
+			silent++
+			if strict {
+				l.Undecide("thorough/self-test", r.Seed, "", "the recorded property-breaking change "+r.Seed+" applies to this tree and the quick check stays silent on it: the checker has lost the rule that caught it")
+			}
+		default:
+			skipped++
+		}
+	}
+	l.Extra["self_test"] = map[string]interface{}{
+		"what":    "each recorded property-breaking change (seeded/<id>/patch.diff) applied to a scratch copy; the quick check must report a violation there",
+		"strict":  strict,
+		"fired":   fired,
+		"silent":  silent,
+		"skipped": skipped,
+		"results": results,
+	}
+}
+
+func runSeed(self, id, seedDir, repo, verifDir string) seedResult {
+	name := filepath.Base(seedDir)
+	tmp, err := os.MkdirTemp("", "bornocheck-seed-")
+	if err != nil {
+		return seedResult{name, "skipped", err.Error()}
+	}
+	defer os.RemoveAll(tmp)
+	dst := filepath.Join(tmp, "tree")
+	// copy the working tree (without .git)
+	cp := exec.Command("sh", "-c", fmt.Sprintf("mkdir -p %q && cd %q && tar --exclude=.git -cf - . | tar -xf - -C %q", dst, repo, dst))
+	if out, err := cp.CombinedOutput(); err != nil {
+		return seedResult{name, "skipped", "copy failed: " + string(out)}
+	}
+	ap := exec.Command("git", "apply", "--whitespace=nowarn", filepath.Join(seedDir, "patch.diff"))
+	ap.Dir = dst
+	if out, err := ap.CombinedOutput(); err != nil {
+		return seedResult{name, "skipped", "patch does not apply to the analysed tree: " + firstLine(string(out))}
+	}
+	cmd := exec.Command(self, "-property", id, "-tier", "quick", "-repo", dst, "-verif", verifDir, "-scratch")
+	cmd.Env = append(os.Environ(), "VERIF_TIER=quick")
+	out, err := cmd.CombinedOutput()
+	txt := string(out)
+	if strings.Contains(txt, "infrastructure") && strings.Contains(txt, "type errors") {
+		return seedResult{name, "skipped", "the changed tree does not compile: " + firstLine(txt)}
+	}
+	if err != nil && strings.Contains(txt, "VIOLATION property="+id) {
+		for _, ln := range strings.Split(txt, "\n") {
+			if strings.HasPrefix(ln, "VIOLATED") || strings.HasPrefix(ln, "UNDECIDED") {
+				if len(ln) > 300 {
+					ln = ln[:300]
+				}
+				return seedResult{name, "fired", ln}
+			}
+		}
+		return seedResult{name, "fired", ""}
+	}
+	return seedResult{name, "silent", firstLine(txt)}
+}
+
+func firstLine(s string) string {
+	s = strings.TrimSpace(s)
+	if i := strings.IndexByte(s, '\n'); i >= 0 {
+		s = s[:i]
+	}
+	if len(s) > 300 {
+		s = s[:300]
+	}
+	return s
+}
